@@ -143,10 +143,7 @@ let all_names (p : program) : IS.t =
   IS.union !acc !fv
 
 let uniquify (p : program) : program =
-  let mx = IS.fold max (all_names p) 0 in
-  let next = ref (min 999 mx) in
-  (* stay below 1000 when possible so that the spelling style (v<k>) does not change *)
-  let next = if mx + 1 + 400 < 1000 then (next := mx; next) else (next := max mx 1000; next) in
+  let next = ref (IS.fold max (all_names p) 0) in
   rn_program { bind = (fun _ -> incr next; !next) } p
 
 (* records are a separate name space of the AST; renamed by their own injective map *)
